@@ -6,7 +6,7 @@ From Coq Require Import List NArith ZArith Bool Permutation.
 Import ListNotations.
 Require Import MV.Common.Interleave MV.C10.Model MV.C10.Spec MV.C10.Exec
                MV.C10.ProofsConc MV.C10.ProofsConc2 MV.C10.ProofsSeq MV.C10.ExecProofs
-               MV.C10.ProofsBound MV.C10.ProofsRefine MV.C10.ProofsWire MV.C10.ProofsSound MV.C10.ProofsSuffix MV.C10.ProofsAbs MV.C10.ProofsCompose MV.C10.ProofsCompose2 MV.C10.ProofsAbs2 MV.C10.ProofsSched MV.C10.ProofsSched2 MV.C10.ProofsSched3.
+               MV.C10.ProofsBound MV.C10.ProofsRefine MV.C10.ProofsWire MV.C10.ProofsSound MV.C10.ProofsSuffix MV.C10.ProofsAbs MV.C10.ProofsCompose MV.C10.ProofsCompose2 MV.C10.ProofsAbs2 MV.C10.ProofsSched MV.C10.ProofsSched2 MV.C10.ProofsSched3 MV.C10.ProofsMix MV.C10.ProofsSched4.
 Open Scope N_scope.
 
 (* counters driven only by increments, any number of updating and flushing threads, every schedule,
@@ -361,3 +361,40 @@ Proof. exact spec_ok_on_model_sched_partial. Qed.
 Theorem C10_spec_ok_on_model_partial : forall c,
   known_class c = None -> case_wf c -> spec_ok c (run_case c) = true.
 Proof. exact spec_ok_on_model_partial. Qed.
+
+(* ---------------------------------------------------------------- round 7: programs mixing increments and absolutes *)
+
+(* no wrapped delta along hazard-free schedules for ARBITRARY counter programs: increments (total I0),
+   absolutes (values <= A), I0 + A < 2^64, any number of updating threads, one counter-flushing
+   thread, repaired code: every delta sent / returned / dropped is exact and <= I0 + A,
+   current <= added + A, added <= I0, last <= current whenever no re-basing window is open *)
+Theorem C10_mixed_no_wrap_hazard_free : forall A I0, I0 + A < two64 ->
+  forall f ps sched, Forall (mix_prog A) ps -> one_flusher f ps ->
+  sumL (fun l => slo (todo l)) (map init_local ps) = I0 ->
+  safe (init_config ps) sched ->
+  let c := fst (exec (step all_fixed) site (init_config ps) sched) in
+  Forall (fun d => d <= I0 + A) (sent (fst c) ++ rawd (fst c) ++ lost (fst c)) /\
+  cur (cnt (fst c)) <= added (fst c) + A /\ added (fst c) <= I0 /\
+  (~ W (snd c) -> last (cnt (fst c)) <= cur (cnt (fst c))).
+Proof. exact mixed_no_wrap_hazard_free. Qed.
+
+(* clause (2) of the scheduled checker for every program: one counter-flushing thread, completed run
+   outside the open class: no returned delta (nor the final one) exceeds sum of increments + largest absolute *)
+Theorem C10_sched_delta_bound : forall ps sched,
+  ps <> [] -> MV.C10.Exec.one_flusher ps = true -> inc_sum ps + abs_max ps < two64 ->
+  known_class (CSched ps sched) = None -> all_done (step all_fixed) (final ps sched) = true ->
+  forallb (fun d => d <=? inc_sum ps + abs_max ps)
+          (sub64 (cur (cnt (fst (final ps sched)))) (last (cnt (fst (final ps sched))))
+           :: deltas_of (map (fun l => rev (results l)) (snd (final ps sched)))) = true.
+Proof. exact sched_bound_mix. Qed.
+
+(* the composed theorems in full.  sched_wf_full: non-empty thread list, the schedule plus the
+   round-robin tail finishes every thread.  case_wf_full: seq_wf (sequential) / sched_wf_full (scheduled) *)
+Theorem C10_spec_ok_on_model_sched : forall ps sched,
+  known_class (CSched ps sched) = None -> sched_wf_full ps sched ->
+  spec_ok (CSched ps sched) (run_case (CSched ps sched)) = true.
+Proof. exact spec_ok_on_model_sched. Qed.
+
+Theorem C10_spec_ok_on_model : forall c,
+  known_class c = None -> case_wf_full c -> spec_ok c (run_case c) = true.
+Proof. exact spec_ok_on_model. Qed.
